@@ -156,6 +156,12 @@ def run_irregular(ck, res, n_cases, goals, n_interval, torch, r, dist):
         M = 4 + ci % 13 if ci >= 4 else 4 + ci % 2          # 4..16 control points; first cases 4 and 5 (generated terms)
         cx, cy = dy(r, -1, 1), dy(r, -1, 1)
         a, b = dy(r, 0.5, 2), dy(r, 0.5, 2)
+        if ci % 4 == 1 and ci % 5 != 3:      # (not combined with the close-neighbour cases: 1e-6 apart on a domain of
+            # size 100 is a relative separation of 1e-8, below what the float64 kernel differences can resolve)
+            # domains of very different absolute size (the spline kernel has an absolute offset: fit and evaluation must
+            # agree on it whatever the extent of the control points)
+            S = r.choice([16.0, 64.0, 1.0 / 16])
+            cx, cy, a, b = cx * S, cy * S, a * S, b * S
         ph0 = dy(r, 0, 1, 4)
         # distinct points around the centre: a perturbed ellipse, angles strictly increasing ...
         angs = [ph0 + 2 * math.pi * (j + 0.25 * r.random()) / M for j in range(M)]
